@@ -52,6 +52,12 @@ FORCED = {
 }
 props = [json.loads(l) for l in open("/verif/properties.jsonl")]
 def focus_text(pid):
+    if int(wave) >= 9:
+        return ("For this round you are free in where to put the change, but assume that the change will be hunted by a strong randomized tester that drives long random sequences of ALL public operations "
+                "(all API variants and arities, small and occasionally large worlds, observers, cached filters, relations, batches, Reset, Shrink, dump/load, several build tags) and compares the world with a reference model after every step. "
+                "Choose the change such a tester is LEAST likely to notice within some hundred thousand random cases: it should need a rare conjunction of conditions (three or more independent conditions at once), a rarely used public function or option, "
+                "a value at the edge of a type's range, an unusual but legal order of configuration calls on a builder (filters, observers, events, exchanges), or state that survives in an object the user keeps (filter, mapper, query, batch, observer, event, resource handle). "
+                "It must still be a genuine violation of the property, demonstrable through the public API. Stay away from the functions listed below where you can.")
     if int(wave) >= 8:
         return ("For this round, prefer a bug that shows only through the INTERPLAY of two or three features that are each fine on their own, or through a second-order effect on a LATER operation: "
                 "observers x batch operations x relations; cached filters x Shrink x Reset x recycling of tables; entity dump/load x recycled IDs x relations; custom events x With/Without/Exclusive x relation archetypes; "
